@@ -42,14 +42,19 @@ MANIFEST = dict(
         "part in an improving step: for the equality-constrained kind every feasible sum-preserving two-variable move involving "
         "it (any active partner, curvature >= 0) strictly decreases the dual objective (exact, second order); for the box kind "
         "every feasible move of it has strictly negative first-order effect and moving it alone strictly decreases the objective "
-        "(K_aa >= 0). "
+        "(K_aa >= 0). (5) select_valid: whenever a selection criterion (MVP / LibSVM second order / maximum gain) reports a positive "
+        "violation the working set it returns is admissible for updateSMO (indices active; g_i >= g_j for MVP/LibSVM; MVP needs "
+        "the gradients inside the sentinel range [-1e100,1e100]); solveIter_direct_inv: every state produced by one pass of "
+        "QpSolver::solve that does not enter the stopping branch satisfies the invariant. "
         "Tie: the Float instance of the same definitions is compared bit-for-bit, the Rat instance exactly on FE_INEXACT-free "
         "prefixes, with the real classes driven through QpSolver::solve (MVP / LibSVM / maximum-gain selection) and through "
         "adversarial op sequences (double/float entries, CachedMatrix with minimal and larger caches) under ASan/UBSan; an "
         "independent oracle re-derives lin - K*alpha and checks every clause of the property (incl. objective monotonicity, sum "
         "preservation and soundness of shrinking) after every operation."),
-  note=TRUST + "NOT yet proved, covered by the exact/bit-for-bit correspondence and the oracle only: that the selection "
-       "criteria return admissible working sets (i,j active, g_i >= g_j) is exercised, not proved; for the box kind a JOINT "
+  note=TRUST + "NOT yet proved, covered by the exact/bit-for-bit correspondence and the oracle only: admissibility of the working set "
+       "RE-selected inside the stopping branch of QpSolver::solve (after unshrink + failed checkKKT + shrink the solver steps on "
+       "the re-selected pair without looking at the reported value), so reachable_inv covers every admissible history and every "
+       "pass outside that branch, not yet literally every run of solve; for the box kind a JOINT "
        "two-variable move involving a shrunk variable is only covered to first order; objective monotonicity of the 1-D "
        "box step inside the guard region 0 < K_ii < 1e-12 is false for the code as it is (documented guard; witness theorems). "
        "The proofs about the 2-D box solver are about the definition regenerated from the current source (they fail, and the "
